@@ -52,9 +52,9 @@ func runCheck(args []string) {
 	seed := 0
 	fmt.Sscanf(os.Getenv("VERIF_SEED"), "%d", &seed)
 	t0 := time.Now()
-	quick, full := 4*time.Second, 30*time.Second
+	quick, full := 8*time.Second, 60*time.Second
 	if *tier == "thorough" {
-		quick, full = 10*time.Second, 180*time.Second
+		quick, full = 20*time.Second, 300*time.Second
 	}
 	evPath := filepath.Join(*outRoot, "evidence", *prop+".json")
 	os.MkdirAll(filepath.Dir(evPath), 0o755)
